@@ -31,6 +31,7 @@ pub fn run_plan(
     stats: &mut Stats,
     watchdog_secs: Option<u64>,
     no_park: bool,
+    server: Option<&mut crate::oracle::RefServer>,
 ) -> Result<PlanOutcome, String> {
     let mut runner = Runner::new(*global_last);
     runner.set_no_park(no_park);
@@ -45,7 +46,7 @@ pub fn run_plan(
         // before the block stands, the rest of the run is undecided
         Judged { violations: res.violations.clone(), nontrivial: false }
     } else {
-        judge(&res, plan.ref_per_event, plan.ref_process, stats)?
+        judge(&res, plan.ref_per_event, plan.ref_process, server, stats)?
     };
     let lh = log_hash(&res.events);
     let sh = sched_hash(&res.events);
@@ -93,6 +94,7 @@ pub fn stats_json(s: &Stats) -> String {
         .num("fault_free_runs", s.fault_free_runs)
         .num("ref_per_event_runs", s.ref_per_event_runs)
         .num("ref_process_runs", s.ref_process_runs)
+        .num("ref_server_runs", s.ref_server_runs)
         .num("plan_steps", s.plan_steps)
         .num("events", s.events)
         .num("skipped", s.skipped)
@@ -172,6 +174,8 @@ pub fn shard_main(a: ShardArgs) -> Result<i32, String> {
     let mut hashes: Vec<(u64, u64)> = Vec::new();
     let mut found: Option<(u64, Plan, Vec<Violation>, String)> = None;
     let timing = std::env::var("VERIF_TIMING").is_ok();
+    // the verdict reference of this shard's runs lives in another process
+    let mut server = Some(crate::oracle::RefServer::start()?);
 
     let mut idx = a.from + ((a.offset + a.stride - (a.from % a.stride)) % a.stride);
     while idx < a.to {
@@ -185,7 +189,7 @@ pub fn shard_main(a: ShardArgs) -> Result<i32, String> {
             stats.faults[8] += 1;
         }
         let t_run = Instant::now();
-        let po = run_plan(&g.plan, &mut global_last, &mut stats, None, a.no_park)
+        let po = run_plan(&g.plan, &mut global_last, &mut stats, None, a.no_park, server.as_mut())
             .map_err(|e| format!("run idx {}: {}", idx, e))?;
         if timing && t_run.elapsed().as_millis() >= 5 {
             eprintln!(
@@ -290,7 +294,7 @@ pub fn replay_session(
     let mut all: Vec<Violation> = Vec::new();
     let mut h = crate::prng::Fnv::default();
     for (i, p) in session.plans.iter().enumerate() {
-        let po = run_plan(p, &mut gl, &mut stats, watchdog_secs, false)?;
+        let po = run_plan(p, &mut gl, &mut stats, watchdog_secs, false, None)?;
         if po.res.blocked {
             text.push_str(&format!("UNDECIDED (blocked): {}\n", po.res.blocked_what));
         }
@@ -361,7 +365,7 @@ pub fn mainrun(
     let plan = main_plan(seed, idx, thorough, main);
     let mut stats = Stats::new();
     let mut gl = None;
-    let po = run_plan(&plan, &mut gl, &mut stats, None, no_park)?;
+    let po = run_plan(&plan, &mut gl, &mut stats, None, no_park, None)?;
     if po.res.blocked && po.judged.violations.is_empty() {
         println!("BLOCKED {}", po.res.blocked_what);
         return Ok(3);
